@@ -137,12 +137,24 @@ fn check_country(r: &mut Report, blocks: &[Block], h: u32, reg: &str, full: bool
 
 pub fn run(a: &Args, r: &mut Report) {
     r.exhaustive = true;
-    r.rule = "exhaustive: tail() on every address 0..2^24 (shard 0, with a registration->address map for injectivity) the same answers must come back in descending and in scattered lookup order; plus out-of-range 32-bit values (edges of 2^24, 2^31 and 2^32, a prime-stride sweep of the whole 32-bit space, every other top byte over addresses that have a registration, uniformly random values); every returned registration is judged against an Annex 7 mark table and against the registration pattern of the most specific address block in data/patterns.json; aircraft_information() on every address with a registration (thorough) or 1/8 of them (quick). distinct_nontrivial = number of distinct addresses that yield a registration".into();
+    r.rule = "exhaustive: tail() on every address 0..2^24 (shard 0, with a registration->address map for injectivity) the same answers must come back in descending and in scattered lookup order; plus out-of-range 32-bit values (edges of 2^24, 2^31 and 2^32, a prime-stride sweep of the whole 32-bit space, every other top byte over addresses that have a registration, uniformly random values); every returned registration is judged against an Annex 7 mark table and against the registration pattern of the most specific address block in data/patterns.json; aircraft_information() on every address with a registration (thorough) or 1/8 of them (quick); on a stride sample of the registered addresses aircraft_information(address, None) is asked, then the same address with an explicit registration of another state, then None again (other spelling of the address): the first answer must come back. distinct_nontrivial = number of distinct addresses that yield a registration".into();
     r.assumptions.push("data/patterns.json start/end/country/pattern entries are the address-block table of the property; the nationality marks of the 21 mapped states are taken from ICAO Annex 7".into());
     let blocks = load_blocks();
     if let Some(p) = &a.replay {
         let v: serde_json::Value = serde_json::from_str(&std::fs::read_to_string(p).unwrap()).unwrap();
         let h = v["replay"]["hexid"].as_u64().unwrap() as u32;
+        if let Some(explicit) = v["replay"]["explicit"].as_str() {
+            let hs = format!("{h:06x}");
+            let get = |reg: Option<&str>| guarded(|| aircraft_information(&hs, reg)).ok().and_then(|x| x.ok()).map(|i| (i.registration.clone(), i.country.clone()));
+            let fresh = get(None);
+            let _ = get(Some(explicit));
+            let after = get(None);
+            r.evaluations += 1;
+            if fresh != after {
+                r.violation("C14:aircraft_information:depends-on-earlier-explicit-lookup", format!("aircraft_information({hs}, None): {fresh:?} then {after:?} after an explicit lookup with {explicit}"), v["replay"].clone());
+            }
+            return;
+        }
         if let Some(prev) = v["replay"]["previous"].as_u64() {
             // a lookup that depended on the one before it: fresh answer, then the answer after the recorded predecessor
             let fresh = guarded(|| tail(h)).ok().flatten();
@@ -217,6 +229,38 @@ pub fn run(a: &Args, r: &mut Report) {
         }
         if kind == "scattered" || kind == "both" {
             pass("scattered", &|k| k.wrapping_mul(0x9E37_79B1) & 0xFF_FFFF);
+        }
+    }
+    // the full lookup is a function of the address too: what aircraft_information(address, None) answers must not depend on
+    // an earlier call for that address that was given an explicit registration (as jet1090 does when its aircraft
+    // database knows the airframe), nor on the spelling of the address
+    if sh == if a.nshards >= 4 { 3 } else { 0 } {
+        let stride = if a.thorough() { 7 } else { 61 };
+        let sample: Vec<(u32, String)> = (0..(1u32 << 24)).step_by(stride).filter_map(|h| guarded(|| tail(h)).ok().flatten().map(|reg| (h, reg))).collect();
+        let view = |h: u32, reg: Option<&str>, upper: bool| -> Result<(Option<String>, Option<String>), String> {
+            let hs = if upper { format!("{h:06X}") } else { format!("{h:06x}") };
+            match guarded(|| aircraft_information(&hs, reg)) {
+                Err((loc, msg)) => Err(format!("panic at {}: {}", short_loc(&loc), msg_class(&msg))),
+                Ok(Err(e)) => Err(format!("Err({e})")),
+                Ok(Ok(info)) => Ok((info.registration.clone(), info.country.clone())),
+            }
+        };
+        let first: Vec<_> = sample.iter().map(|(h, _)| view(*h, None, false)).collect();
+        let n = sample.len();
+        for (i, (h, reg)) in sample.iter().enumerate() {
+            // a registration of another state's scheme (the sample is sorted by address, so half the list away is elsewhere)
+            let foreign = &sample[(i + n / 2 + 1) % n].1;
+            let with = view(*h, Some(foreign), i % 2 == 1);
+            if let Err(e) = &with {
+                r.violation("C14:aircraft_information:explicit-registration", format!("aircraft_information({h:06x}, Some({foreign})): {e}"), json!({"hexid": h, "explicit": foreign}));
+            }
+            let again = view(*h, None, i % 3 == 1);
+            r.evaluations += 2;
+            if again != first[i] {
+                r.violation("C14:aircraft_information:depends-on-earlier-explicit-lookup", format!("aircraft_information({h:06x}, None) = {:?} at first, {:?} after a lookup of the same address with the explicit registration {foreign}; tail() = {reg}", first[i], again), json!({"hexid": h, "explicit": foreign}));
+            } else {
+                r.class("aircraft_information:same-answer-after-an-explicit-registration-lookup");
+            }
         }
     }
     if sh == 0 {
